@@ -212,7 +212,27 @@ def concurrent_case(kind, chunks, ops):
     return v
 
 
+def wsgi_short_input_case(kind, chunks, cut):
+    """WSGI: the client goes away after `cut` chunks - wsgi.input reaches EOF before CONTENT_LENGTH bytes were read.  The
+    statement: a disconnect before the final chunk surfaces as an error, never as a truncated body."""
+    from baize.wsgi import Request
+    data = b"".join(chunks)
+    sent = b"".join(chunks[:cut])
+    if len(sent) >= len(data):
+        return []
+    env = wsgi_environ("POST", "/", [("Content-Type", BODIES[kind][1] if isinstance(BODIES[kind], tuple) and len(BODIES[kind]) > 1 else "application/octet-stream")], body=sent)
+    env["CONTENT_LENGTH"] = str(len(data))
+    try:
+        got = Request(env).body
+    except Exception:  # noqa  (any error is "not a truncated body")
+        return []
+    return ["WSGI body with CONTENT_LENGTH %d and only %d bytes before EOF returned the truncated %r without an error" % (
+        len(data), len(sent), got[:30])]
+
+
 def replay(inputs):
+    if inputs.get("wsgi_short_input"):
+        return {"violated": wsgi_short_input_case(inputs["kind"], [c.encode("latin-1") for c in inputs["chunks"]], inputs["cut"])}
     if inputs.get("concurrent"):
         return {"violated": concurrent_case(inputs["kind"], [c.encode("latin-1") for c in inputs["chunks"]], inputs["ops"])}
     return {"violated": run_case(inputs["iface"], inputs["kind"], [c.encode("latin-1") for c in inputs["chunks"]],
@@ -251,6 +271,13 @@ def bounded(tier, seed):
                         elif len(samples) < 3 and len(ops) == 3 and disc is None and len(chunks) == 3:
                             samples.append({"iface": iface, "kind": kind, "chunks": [c.decode("latin-1") for c in chunks], "ops": ops})
         for chunks in chs[:6]:
+            for cut in range(0, len(chunks)):
+                evals += 1
+                v = wsgi_short_input_case(kind, list(chunks), cut)
+                if v and sum(1 for f in failures if f["inputs"].get("region") == "wsgi-input-shorter-than-content-length") < 2:
+                    failures.append({"inputs": {"wsgi_short_input": True, "kind": kind, "chunks": [c.decode("latin-1") for c in chunks],
+                                                "cut": cut, "region": "wsgi-input-shorter-than-content-length"}, "violated": v})
+        for chunks in chs[:6]:
             for ops in (("body", "body"), ("body", "stream"), ("body", kind, "body"), (kind, kind, "body")):
                 evals += 1
                 v = concurrent_case(kind, list(chunks), list(ops))
@@ -260,6 +287,7 @@ def bounded(tier, seed):
                                                 "ops": list(ops)}, "violated": v})
     return {"evaluations": evals, "distinct_nontrivial": len(distinct), "failures": failures, "samples": samples,
             "rule": "access sequences up to length %d over {body, stream, json, form, close} x chunkings of the body into <= 3 "
-                    "messages (incl. empty ones and byte-at-a-time) x disconnect before message k (ASGI), both interfaces, "
+                    "messages (incl. empty ones and byte-at-a-time) x disconnect before message k (ASGI; WSGI: wsgi.input ending before "
+                    "CONTENT_LENGTH bytes), both interfaces, "
                     "against a reference automaton; plus sets of concurrently awaiting ASGI tasks (samples schedules)" % maxlen,
             "exhaustive": False}
